@@ -3,16 +3,17 @@
 (* Events: reset{sc}  ret{op:"send",res,code}*  final{ok,code}.  The transport's byte-level steps are not logged: *)
 (* the results are functions of the scenario (SendSide's oracle, proved equal to the state machine by TLC).       *)
 EXTENDS SendSide, TraceBase
-Blank == [proto |-> "connect", kind |-> "bidi", sizes |-> <<>>, cut |-> 0, fault |-> "err"]
+Blank == [proto |-> "connect", kind |-> "bidi", sizes |-> <<>>, cut |-> 0, fault |-> "err", poison |-> 0]
 TraceInit == l = 1 /\ failed = FALSE /\ InitWith(Blank)
 TReset == Ev("reset") /\ ResetTo(Cur.sc) /\ Consume /\ failed' = FALSE
 
 \* a Send returned: the i-th result must be one the oracle allows
+Res == IF Cur.res = "other:13" THEN "internal" ELSE Cur.res
 TSend == /\ Ev("ret") /\ Cur.op = "send"
          /\ si <= Len(sc.sizes)
-         /\ Cur.res \in SendOutcomes(sc, si)
-         /\ (Cur.res = "ctx" => Cur.code = CtxCode(sc))
-         /\ results' = Append(results, Cur.res) /\ si' = si + 1
+         /\ Res \in SendOutcomes(sc, si)
+         /\ (Res = "ctx" => Cur.code = CtxCode(sc))
+         /\ results' = Append(results, Res) /\ si' = si + 1
          /\ UNCHANGED <<sc, consumed, struck, part, final>>
 \* other connection-level operations (CloseRequest, Receive, CloseResponse) are judged through the final result
 TOther == /\ Ev("ret") /\ Cur.op # "send" /\ UNCHANGED vars
